@@ -168,8 +168,12 @@ fn resolve_type(
     }
 
     // Unresolved type is in import path?
-    if let Some(import_path) = imports.iter().find(|import_path| {
-        &type_.name == *import_path || import_path.ends_with(&format!(".{}", type_.name))
+    // Note: when several imports match, pick the exact one, else the smallest (not the first in hash order)
+    if let Some(import_path) = imports.get(&type_.name).or_else(|| {
+        imports
+            .iter()
+            .filter(|import_path| import_path.ends_with(&format!(".{}", type_.name)))
+            .min()
     }) {
         if let Some(item_kind) = defined.get(import_path) {
             // Imported type is defined => set resolved item
@@ -240,6 +244,8 @@ fn check_imports<'a>(
 ) -> HashMap<String, &'a ast::Import> {
     // - detect duplicated imports
     // - create map of "qualified name" -> Import
+    // - remember the first occurrences in source order (iterating the map has no defined order)
+    let mut first_imports: Vec<&ast::Import> = Vec::new();
     let imports: HashMap<String, &ast::Import> =
         imports.iter().fold(HashMap::new(), |mut map, import| {
             match map.entry(import.get_qualified_name()) {
@@ -258,13 +264,15 @@ fn check_imports<'a>(
                 }
                 hash_map::Entry::Vacant(v) => {
                     v.insert(import);
+                    first_imports.push(import);
                 }
             }
             map
         });
 
     // - generate diagnostics for unused and unresolved imports
-    for (qualified_import, import) in imports.iter() {
+    for import in first_imports {
+        let qualified_import = &import.get_qualified_name();
         if !defined.contains_key(qualified_import)
             && ast::AndroidTypeKind::from_qualified_name(qualified_import).is_none()
         {
@@ -303,15 +311,19 @@ fn check_declared_parcelables(
 ) {
     // - detect duplicated parcelables (or name which was already imported)
     // - create map "qualified name" -> Import
-    let declared_parcelables: HashMap<String, &ast::Import> =
+    // - remember the first occurrences in source order (iterating the map has no defined order)
+    let mut first_declared_parcelables: Vec<&ast::Import> = Vec::new();
+    let _declared_parcelables: HashMap<String, &ast::Import> =
         declared_parcelables
             .iter()
             .fold(HashMap::new(), |mut map, declared_parcelable| {
                 let qualified_name = declared_parcelable.get_qualified_name();
 
+                // Note: when several imports conflict, name the smallest (not the first in hash order)
                 if let Some((_, conflicting_import)) = imports
                     .iter()
-                    .find(|(_, import)| import.name == declared_parcelable.name)
+                    .filter(|(_, import)| import.name == declared_parcelable.name)
+                    .min_by_key(|(qualified_import, _)| *qualified_import)
                 {
                     diagnostics.push(Diagnostic {
                         kind: DiagnosticKind::Error,
@@ -347,13 +359,15 @@ fn check_declared_parcelables(
                     }
                     hash_map::Entry::Vacant(v) => {
                         v.insert(declared_parcelable);
+                        first_declared_parcelables.push(declared_parcelable);
                     }
                 }
                 map
             });
 
     // - generate diagnostics for unrecommended usage and for unused declared parcelables
-    for (qualified_import, declared_parcelable) in declared_parcelables.into_iter() {
+    for declared_parcelable in first_declared_parcelables {
+        let qualified_import = declared_parcelable.get_qualified_name();
         if !resolved.contains(&qualified_import) {
             // No type resolved for this import
             diagnostics.push(Diagnostic {
